@@ -1,6 +1,7 @@
 /-
   C12 — no trampoline mapping is leaked or freed twice over any number of cycles.
 -/
+import InjModel.Generated.Layout
 import InjModel.Props.C02
 namespace Inj.Props
 open Inj Inj.Machine
@@ -88,7 +89,12 @@ theorem C12_once (mode : Mode) (rs : List Req) (s0 sf : MState)
     rw [List.filter_eq_self]; intro g hgm; simp [e3 g (by simpa using hgm)]
   rw [hf, ← e2, List.map_reverse]
 
+/-- the model's state is complete for the back ends: `injector_core` declares no process-wide or
+    thread-local mutable state (regenerated from the source on every run) -/
+theorem C12_state_modelled : Generated.Layout.coreStatics = [] := by decide
+
 end Inj.Props
 
 #print axioms Inj.Props.C12_balance
 #print axioms Inj.Props.C12_once
+#print axioms Inj.Props.C12_state_modelled
